@@ -354,6 +354,25 @@ theorem guard_sound_cursor_full_false : ¬ guard_sound_cursor_full := by
 
 /-! ### cursor setters (`v.NAME(value, c)`, `cursor::set_value` / `set_last_value` and the wrappers) -/
 
+/-- tie to the code: the `set_value` / `set_last_value` functions of sbepp.hpp are exactly those the
+    model evaluates (`detail::set_value`; `plainSite`, `initSite`, `dontMoveSite`, `initDontMoveSite` with
+    `w = true`; `skip_cursor_wrapper` has none), each with its size check LAST among its checks and
+    textually before the write -/
+theorem cursor_setter_sites_extracted :
+    (sites.filter (fun s => s.fn == "set_value" || s.fn == "set_last_value")).map
+        (fun s => (s.cls, s.fn, s.checks.length, s.checkBeforeAccess && !s.failed)) =
+      [("detail", "set_value", 1, true),
+       ("cursor", "set_value", 2, true), ("cursor", "set_last_value", 2, true),
+       ("init_cursor_wrapper", "set_value", 1, true), ("init_cursor_wrapper", "set_last_value", 1, true),
+       ("init_dont_move_cursor_wrapper", "set_value", 1, true),
+       ("dont_move_cursor_wrapper", "set_value", 2, true), ("dont_move_cursor_wrapper", "set_last_value", 2, true)] ∧
+    [plainSite false true, plainSite true true, initSite false true, initSite true true, dontMoveSite false true,
+      dontMoveSite true true, initDontMoveSite true].map (fun s => (s.cls, s.fn)) =
+      [("cursor", "set_value"), ("cursor", "set_last_value"), ("init_cursor_wrapper", "set_value"),
+       ("init_cursor_wrapper", "set_last_value"), ("dont_move_cursor_wrapper", "set_value"),
+       ("dont_move_cursor_wrapper", "set_last_value"), ("init_dont_move_cursor_wrapper", "set_value")] := by
+  decide
+
 /-- a cursor setter performs the assertion and the size check of the getter of the same wrapper (with
     the same value), writes exactly the bytes that getter reads and leaves the cursor where the
     getter leaves it — the specification of a setter run therefore is that of the getter run -/
